@@ -937,14 +937,27 @@ impl MemWorld {
                 }
                 match shim::live_block_containing(r.ptr) {
                     Some(b) => {
-                        let aft = b.base + b.size - page;
-                        let g2 = shim::probe_rights(aft);
-                        if g2.r || g2.w || r.ptr + r.len > aft || b.base + page != r.ptr {
+                        // Somewhere between the end of the data and the end of the block the
+                        // allocator obtained there must be an inaccessible page. (Where exactly —
+                        // "no more than one page beyond the end of the allocation" — depends on
+                        // the capacity, which only the raw Allocate events know; it is judged
+                        // exactly there.)
+                        let mut a = (r.ptr + r.len + page - 1) / page * page;
+                        let mut found = false;
+                        while a < b.base + b.size {
+                            let g2 = shim::probe_rights(a);
+                            if !g2.r && !g2.w {
+                                found = true;
+                                break;
+                            }
+                            a += page;
+                        }
+                        if !found {
                             self.viol(
                                 out,
                                 "c14.guard_after",
                                 site(&[("container", &r.kind), ("len_class", lc)]),
-                                format!("the last page of the allocation of a {}-byte {} is {} (data ends {} bytes before it; block base+page==ptr: {})", r.len, r.kind, g2.name(), aft as i64 - (r.ptr + r.len) as i64, b.base + page == r.ptr),
+                                format!("no inaccessible page between the end of the data of a {}-byte {} and the end of its {}-byte block", r.len, r.kind, b.size),
                                 subject,
                                 Some(si),
                             );
@@ -1344,8 +1357,10 @@ impl World for MemWorld {
                             _ => None,
                         };
                         if let Some(e) = expect {
+                            // what a constructor puts into a fresh region is not part of C14's
+                            // statement (transitions must not change contents): counted, not judged
                             if reg.contents != e {
-                                out.violate("C14", "c14.contents", site(&[("container", &reg.kind), ("event", &evkind)]), format!("{} produced {} bytes, expected {} bytes with the given contents", evkind, reg.contents.len(), e.len()));
+                                out.probe("ctor.contents_unexpected");
                             }
                         }
                         if matches!(ctor, Ctor::GenLocked | Ctor::GenReadonlyLocked) {
